@@ -64,7 +64,72 @@ def _resolve_local(f, node):
     return node
 
 
-def check_wrapper(ck, prog, rule, api_rel, api_qual, backend_key, argmap=None, allow_pre=(), void=False):
+def inline_locals(f, node, depth=0, used=None):
+    """copy of the expression with every Name that f binds exactly once (plain `name = expr`, not a parameter, not a loop or
+    augmented target) replaced by the bound expression, recursively: `a = x / m; b = np.where(a >= c)[0]; n = len(b)` -> one expression"""
+    import copy
+    single = {}
+    counts = {}
+    for n in ast.walk(f.node):
+        if isinstance(n, ast.Assign):
+            for t in n.targets:
+                for x in ast.walk(t):
+                    if isinstance(x, ast.Name) and isinstance(x.ctx, ast.Store):
+                        counts[x.id] = counts.get(x.id, 0) + 1
+                        if len(n.targets) == 1 and isinstance(t, ast.Name):
+                            single[x.id] = n.value
+        elif isinstance(n, (ast.AugAssign, ast.AnnAssign, ast.For, ast.comprehension, ast.NamedExpr)):
+            for x in ast.walk(n.target):
+                if isinstance(x, ast.Name):
+                    counts[x.id] = counts.get(x.id, 0) + 2
+        elif isinstance(n, (ast.With,)):
+            for it in n.items:
+                if it.optional_vars is not None:
+                    for x in ast.walk(it.optional_vars):
+                        if isinstance(x, ast.Name):
+                            counts[x.id] = counts.get(x.id, 0) + 2
+    params = set(f.params())
+
+    class T(ast.NodeTransformer):
+        def __init__(self, d):
+            self.d = d
+
+        def visit_Name(self, n):
+            if isinstance(n.ctx, ast.Load) and n.id in single and counts.get(n.id) == 1 and n.id not in params and self.d < 8:
+                if used is not None:
+                    used.add(n.id)
+                return T(self.d + 1).visit(copy.deepcopy(single[n.id]))
+            return n
+    return T(depth).visit(copy.deepcopy(node))
+
+
+def memo_forward(prog, f):
+    """the wrapper computes its result once per key and keeps it: `if k not in T: T[k] = <call>` ... `return T[k]`
+    -> (stored call, key expression with single-assignment locals inlined, table text) or None"""
+    stores = [n for n in ast.walk(f.node) if isinstance(n, ast.Assign) and len(n.targets) == 1 and isinstance(n.targets[0], ast.Subscript)
+              and isinstance(n.value, ast.Call)]
+    if len(stores) != 1:
+        return None
+    st = stores[0]
+    table = unparse(st.targets[0].value)
+    base = st.targets[0].value
+    persistent = (isinstance(base, ast.Name) and base.id in f.mod.globals) or (isinstance(base, ast.Attribute) and isinstance(base.value, ast.Name) and base.value.id == "self")
+    if not persistent:
+        return None
+    key = unparse(st.targets[0].slice)
+    for r in returns_of(f):
+        v = r.value
+        if v is None:
+            return None
+        v = _resolve_local(f, v) if isinstance(v, ast.Name) else v
+        if v is st.value:
+            continue
+        if not (isinstance(v, ast.Subscript) and unparse(v.value) == table and unparse(v.slice) == key):
+            return None
+    return st.value, inline_locals(f, st.targets[0].slice), table
+
+
+def check_wrapper(ck, prog, rule, api_rel, api_qual, backend_key, argmap=None, allow_pre=(), void=False, memo=None):
     """a thin wrapper: what it returns (or, for void=True, the one backend call it makes) is `<receiver>.<backend>(...)` with each
     of its own parameters (argmap, default: all, same name) bound to the stated formal.
     Shape problems (no return, a returned expression that is not a resolvable call) are 'undecided'; a resolvable call to a
@@ -74,6 +139,7 @@ def check_wrapper(ck, prog, rule, api_rel, api_qual, backend_key, argmap=None, a
     own = [p for p in f.params() if p != "self"]
     argmap = dict(argmap) if argmap is not None else {p: p for p in own}
     calls = []
+    mf = None
     if void:
         bcls = backend_key.split(":")[1].split(".")[0]
         for n in ast.walk(f.node):
@@ -87,6 +153,13 @@ def check_wrapper(ck, prog, rule, api_rel, api_qual, backend_key, argmap=None, a
         rets = returns_of(f)
         if not rets:
             raise Undecided("unrecognised shape: %s has no return statement" % f.qual, f.loc())
+        mf = memo_forward(prog, f)
+        if mf is not None and prog.resolve_call(f, mf[0]) is not None:
+            # a memoised forward: the stored call is checked as the forward; whether the key determines the stored value is
+            # MEMO-KEY's verdict (props.common.check_memos runs over every anchored wrapper in each property)
+            calls.append(mf[0])
+            rets = []
+            ck.info("%s keeps the backend's result in %s keyed on %s; key adequacy is decided by MEMO-KEY" % (f.qual, mf[2], unparse(mf[1])))
         for r in rets:
             v = _resolve_local(f, r.value) if r.value is not None else None
             if not isinstance(v, ast.Call) or prog.resolve_call(f, v) is None:
@@ -112,6 +185,8 @@ def check_wrapper(ck, prog, rule, api_rel, api_qual, backend_key, argmap=None, a
         extra = [k for k in b if k.startswith("*")]
         if extra:
             good &= ck.ob(rule, construct, False, expected="arity of %s" % backend_key, found=extra, slot="arity", where=f.loc(v))
+    if good and not void and memo is not None and mf is not None:
+        memo(ck, f, mf[2], mf[1], mf[0])
     if good:
         ck.ob(rule, construct, True, expected=backend_key, found=backend_key, slot="forwards")
     return good
